@@ -96,6 +96,7 @@ def lose_files(w, s):
     for k in range(s["n"]):
         rel = w.pick(d, s["fi"] + k)
         if rel is not None:
+            w.trash.append((d, rel, w.read_file(d, rel), w.mtime_ns(d, rel)))
             os.unlink(w.full(d, rel))
             lost.append(rel)
     return lost
@@ -144,7 +145,7 @@ def run_history(w, steps, after_command=None):
             pending = True
         else:
             ev = w.fs_step(s)
-            if ev and ev[0] in ("delete", "move", "truncate", "rename", "file_to_dir", "file_to_link"):
+            if ev and ev[0] in ("delete", "move", "truncate", "rename", "file_to_dir", "file_to_link", "undelete", "rewrite_same_second"):
                 pending = True
     return None, stats
 
